@@ -307,10 +307,16 @@ def child_reader(args):
         with mod.open(filename, "rt") as f:
             text = f.read()
         stream, raw = simfs.chunked_text_stream(text, rd["chunk"])
-        ph = phonopy.load(stream, **kw)
+        try:
+            ph = phonopy.load(stream, **kw)
+        except Exception as e:  # noqa: BLE001
+            return {"load_raised": "%s: %s" % (type(e).__name__, str(e)[:200]), "stream_reads": raw.reads}
         out["stream_reads"] = raw.reads
     else:
-        ph = phonopy.load(filename, **kw)
+        try:
+            ph = phonopy.load(filename, **kw)
+        except Exception as e:  # noqa: BLE001
+            return {"load_raised": "%s: %s" % (type(e).__name__, str(e)[:200]), "stream_reads": 0}
     out["snap"] = snap(ph)
     if resave:
         sv = spec["save"]
@@ -528,6 +534,10 @@ def execute(spec):
                     break
             faults["fallback_discovery:" + "+".join(spec["fallback"])] = 1
         rout = sub(child_reader, (spec, path, fn, spec["generations"] == 2 and fb_expect is None))
+        if "load_raised" in rout:
+            # a file written by save() (plus files the documented discovery list allows) must load
+            V("reload-differs", "load-raises:" + rout["load_raised"].split(":")[0], detail=rout["load_raised"], filename=fn, saved=saved, stale=sorted(allowed))
+            return _result(spec, violations, faults, probes, log, nontrivial=True)
         if spec["read"]["mode"] == "stream":
             faults["short_read_stream"] = 1
             probes["stream_read_calls"] = rout["stream_reads"]
@@ -554,7 +564,10 @@ def execute(spec):
         if spec["generations"] == 2 and rout.get("resaved"):
             faults["second_generation"] = 1
             r2 = sub(child_reader, (dict(spec, read=dict(spec["read"], mode="filename")), path, rout["resaved"], False))
-            for name, why in compare_snaps(ws, r2["snap"], dec, saved, spec["obj"], spec["read"]):
+            if "load_raised" in r2:
+                V("reload-differs", "gen2:load-raises:" + r2["load_raised"].split(":")[0], detail=r2["load_raised"], saved=saved)
+                r2 = {"snap": None}
+            for name, why in (compare_snaps(ws, r2["snap"], dec, saved, spec["obj"], spec["read"]) if r2["snap"] is not None else []):
                 V("reload-differs", "gen2:" + name + ("|stale-files-present" if stale_present else ""), why=why, stale=stale_present, saved=saved)
         # (e) write/parse pairs
         wp, rp = wout["pairs"], rout["pairs"]
